@@ -355,8 +355,8 @@ func TestMissingNodesAndRepair(t *testing.T) {
 		if deep {
 			// a trie that is dozens of nodes deep along one path: every prefix (in whole bytes) of one long key is a key
 			dl := gen.Uniform(rt, 17, 32, "deeplen")
-			if gen.Chance(rt, 25, "verydeep") {
-				dl = gen.Uniform(rt, 65, 80, "verydeeplen") // more than 128 node levels
+			if gen.Chance(rt, 12, "verydeep") {
+				dl = gen.Uniform(rt, 65, 68, "verydeeplen") // more than 128 node levels
 			}
 			p := mptkit.GenFixedPath(rt, dl, "deeppath")
 			for i := 2; i <= len(p); i += 2 {
